@@ -16,6 +16,21 @@
 (* id = next[e] + 2*k for some k in 0..MaxSkip and sets next[e] = id + 2.  *)
 (* The code is the refinement k = 0; the binding measures k (gaps) but a   *)
 (* gap is not a violation.                                                 *)
+(*                                                                         *)
+(* Close(e): the connection end is closed (peer.Connection.Close).  The    *)
+(* API still hands out an identifier afterwards (NextStreamID returns only *)
+(* an id, no error), so the statement keeps applying: identifiers          *)
+(* allocated after - or racing with - Close are nonzero and unique too.    *)
+(* Closing changes nothing in the ideal allocator.                         *)
+(*                                                                         *)
+(* Deviations: DevNonAtomic (Next = load ; store), DevSameParity,          *)
+(* DevStartZero, DevStepOne, and                                           *)
+(*   DevLazySeed       the counter starts unseeded (0); Next = "if the     *)
+(*                     counter is 0 store the first id" ; atomic add.  The *)
+(*                     check-then-store is not atomic: concurrent FIRST    *)
+(*                     allocations of a fresh end re-seed the counter      *)
+(*                     after another caller has already allocated          *)
+(*   DevZeroAfterClose Next on a closed end returns 0 and consumes nothing *)
 (***************************************************************************)
 EXTENDS Naturals, Sequences, FiniteSets, TLC, Json
 
@@ -27,26 +42,30 @@ CONSTANTS MaxAlloc,   \* allocations per end (bound of the model)
           Emit        \* TRUE: print every transition as JSON
 
 End == {"D", "A"}
-DevNames == {"DevNonAtomic", "DevSameParity", "DevStartZero", "DevStepOne"}
+DevNames == {"DevNonAtomic", "DevSameParity", "DevStartZero", "DevStepOne", "DevLazySeed", "DevZeroAfterClose"}
 ASSUME Dev \subseteq DevNames
 
 First(e) == IF e = "D" THEN 1
             ELSE IF "DevSameParity" \in Dev THEN 1
             ELSE IF "DevStartZero" \in Dev THEN 0 ELSE 2
 NoLoc == [e |-> "none", v |-> 0]
+Lazy == "DevLazySeed" \in Dev
 Step == IF "DevStepOne" \in Dev THEN 1 ELSE 2
 
 VARIABLES next,   \* [End -> Nat]  the counter
           ids,    \* [End -> SUBSET Nat]  ghost: identifiers handed out
           cnt,    \* [End -> Nat]  ghost: number of completed Next calls
-          loc,    \* [Threads -> [e, v]] (NoLoc = idle)  value read by a non-atomic caller (DevNonAtomic)
+          loc,    \* [Threads -> [e, v]] (NoLoc = idle)  value read by a non-atomic caller (DevNonAtomic);
+                  \*   DevLazySeed: v = 1 "saw the counter unseeded, will store", v = 2 "will add"
+          open,   \* [End -> BOOLEAN]  the connection end has not been closed
           last
 
-vars == <<next, ids, cnt, loc, last>>
-view == <<next, ids, cnt, loc>>
+vars == <<next, ids, cnt, loc, open, last>>
+view == <<next, ids, cnt, loc, open>>
 
 Init ==
-  /\ next = [e \in End |-> First(e)]
+  /\ next = [e \in End |-> IF Lazy THEN 0 ELSE First(e)]
+  /\ open = [e \in End |-> TRUE]
   /\ ids = [e \in End |-> {}]
   /\ cnt = [e \in End |-> 0]
   /\ loc = [t \in Threads |-> NoLoc]
@@ -56,21 +75,52 @@ Hand(e, id) ==
   /\ ids' = IF Ghost THEN [ids EXCEPT ![e] = @ \cup {id}] ELSE ids
   /\ cnt' = [cnt EXCEPT ![e] = @ + 1]
 
-\* one atomic allocation
+\* one atomic allocation (open or closed end alike)
 Next(e, k) ==
+  /\ ~Lazy
   /\ cnt[e] < MaxAlloc
-  /\ LET id == next[e] + Step * k IN
+  /\ IF "DevZeroAfterClose" \in Dev /\ ~open[e]
+       THEN /\ Hand(e, 0) /\ UNCHANGED next
+            /\ last' = [act |-> "Next", e |-> e, id |-> 0, k |-> k, dev |-> "DevZeroAfterClose"]
+       ELSE LET id == next[e] + Step * k IN
+            /\ Hand(e, id)
+            /\ next' = [next EXCEPT ![e] = id + Step]
+            /\ last' = [act |-> "Next", e |-> e, id |-> id, k |-> k]
+  /\ UNCHANGED <<loc, open>>
+
+Close(e) ==
+  /\ open[e]
+  /\ open' = [open EXCEPT ![e] = FALSE]
+  /\ UNCHANGED <<next, ids, cnt, loc>>
+  /\ last' = [act |-> "Close", e |-> e]
+
+(* ---- deviation: lazily seeded counter ------------------------------------*)
+LazyCheck(t, e) ==
+  /\ Lazy /\ loc[t] = NoLoc /\ cnt[e] < MaxAlloc
+  /\ loc' = [loc EXCEPT ![t] = [e |-> e, v |-> IF next[e] = 0 THEN 1 ELSE 2]]
+  /\ UNCHANGED <<next, ids, cnt, open>>
+  /\ last' = [act |-> "LazyCheck", t |-> t, e |-> e]
+LazyStore(t) ==
+  /\ Lazy /\ loc[t] # NoLoc /\ loc[t].v = 1
+  /\ next' = [next EXCEPT ![loc[t].e] = First(loc[t].e)]
+  /\ loc' = [loc EXCEPT ![t] = [@ EXCEPT !.v = 2]]
+  /\ UNCHANGED <<ids, cnt, open>>
+  /\ last' = [act |-> "LazyStore", t |-> t]
+LazyAdd(t) ==
+  /\ Lazy /\ loc[t] # NoLoc /\ loc[t].v = 2
+  /\ LET e == loc[t].e  id == next[e] IN
        /\ Hand(e, id)
        /\ next' = [next EXCEPT ![e] = id + Step]
-       /\ last' = [act |-> "Next", e |-> e, id |-> id, k |-> k]
-  /\ UNCHANGED loc
+       /\ last' = [act |-> "Next", e |-> e, id |-> id, k |-> 0, dev |-> "DevLazySeed"]
+  /\ loc' = [loc EXCEPT ![t] = NoLoc]
+  /\ UNCHANGED open
 
 (* ---- deviation: Next as load ; store (lost update) ----------------------*)
 DevRead(t, e) ==
   /\ "DevNonAtomic" \in Dev
   /\ loc[t] = NoLoc /\ cnt[e] < MaxAlloc
   /\ loc' = [loc EXCEPT ![t] = [e |-> e, v |-> next[e]]]
-  /\ UNCHANGED <<next, ids, cnt>>
+  /\ UNCHANGED <<next, ids, cnt, open>>
   /\ last' = [act |-> "DevRead", t |-> t, e |-> e]
 
 DevWrite(t) ==
@@ -81,11 +131,15 @@ DevWrite(t) ==
        /\ next' = [next EXCEPT ![e] = id + Step]
        /\ last' = [act |-> "Next", e |-> e, id |-> id, k |-> 0, dev |-> "DevNonAtomic"]
   /\ loc' = [loc EXCEPT ![t] = NoLoc]
+  /\ UNCHANGED open
 
 NextStep ==
   \/ \E e \in End, k \in 0..MaxSkip : Next(e, k)
   \/ \E t \in Threads, e \in End : DevRead(t, e)
   \/ \E t \in Threads : DevWrite(t)
+  \/ \E e \in End : Close(e)
+  \/ \E t \in Threads, e \in End : LazyCheck(t, e)
+  \/ \E t \in Threads : LazyStore(t) \/ LazyAdd(t)
 
 Spec == Init /\ [][NextStep]_vars
 
@@ -103,5 +157,6 @@ NonZeroLast == last.act = "Next" => last.id # 0
 ParityLast  == last.act = "Next" => last.id % 2 = (IF last.e = "D" THEN 1 ELSE 0)
 
 EmitEdge ==
-  Emit => PrintT("EDGE " \o ToJson([s |-> [next |-> next], a |-> last', t |-> [next |-> next']]))
+  Emit => PrintT("EDGE " \o ToJson([s |-> [next |-> next, open |-> open], a |-> last',
+                                     t |-> [next |-> next', open |-> open']]))
 =============================================================================
